@@ -908,7 +908,49 @@ func (fx *fnExec) rangeNext(in *ssa.Next, st *State) {
 		st.Regs[in.Iter] = Val{T: it.T, Tuple: []Val{x, intVal(BVAdd(pos, width))}}
 		return
 	}
-	fail("%s: range over map is not supported yet", fx.fn)
+	// range over a map: every iteration visits an arbitrary present key (sound for safety and for
+	// per-iteration facts; "every key is visited exactly once" is not modelled)
+	mt, isMap := x.T.Underlying().(*types.Map)
+	if !isMap {
+		fail("%s: range over %v is not supported", fx.fn, x.T)
+	}
+	fx.ex.Dropped["range over map: each iteration visits an arbitrary present key; completeness of the visit is not modelled"] = true
+	ks, vs := mapSorts(mt)
+	ok := Fresh("mapnext_ok", BoolSort)
+	tup := in.Type().(*types.Tuple)
+	kv := freshVal("mapkey", mt.Key())
+	var keyTerm *Term
+	if len(kv.C) == 1 {
+		keyTerm = kv.C[0]
+	} else {
+		keyTerm = fx.ex.strID(kv)
+	}
+	has := Select(Select(st.heapGet(mapHasKey(mt), ArraySort(IntSort, ArraySort(ks, BoolSort))), x.C[0]), keyTerm)
+	s2 := *st
+	s2.Reach = And(st.Reach, ok)
+	fx.ex.assume(&s2, And(Neq(x.C[0], IntC(0)), has))
+	fx.ex.assumeAll(&s2, typeInv(kv, 0))
+	c := make([]*Term, len(vs))
+	for k, s := range vs {
+		c[k] = Select(Select(st.heapGet(mapValKey(mt, k), ArraySort(IntSort, ArraySort(ks, s))), x.C[0]), keyTerm)
+	}
+	vv := Val{T: mt.Elem(), C: c}
+	fx.ex.assumeAll(&s2, typeInv(vv, 0))
+	fx.ex.assumeHeapWF(&s2, vv)
+	kOut, vOut := kv, vv
+	if tup.At(1).Type() != nil {
+		kOut.T = tup.At(1).Type()
+	}
+	if tup.At(2).Type() != nil {
+		vOut.T = tup.At(2).Type()
+	}
+	if _, inv := tup.At(1).Type().(*types.Tuple); inv || len(layoutSafe(tup.At(1).Type())) == 0 {
+		kOut = Val{T: tup.At(1).Type()}
+	}
+	if len(layoutSafe(tup.At(2).Type())) == 0 {
+		vOut = Val{T: tup.At(2).Type()}
+	}
+	st.Regs[in] = Val{T: in.Type(), Tuple: []Val{boolVal(ok), kOut, vOut}}
 }
 
 var _ = big.NewInt
